@@ -591,3 +591,271 @@ Proof.
     + exact (IH (S i) _ Halt' Hwf' (all_out_outs _ _ Ho) Hcr' a qa b' qb Ha Hb Hbef).
 Qed.
 End Bands.
+
+(* ============================================================================================== *)
+(* 8. later coloured alternatives lie outside the span of the voters and of F_1                    *)
+(* ============================================================================================== *)
+Lemma outside_lemma (V T : list Q) (c : Q) v0 V' t0 T' :
+  V = v0 :: V' -> T = t0 :: T' ->
+  (forall p t, In p V -> In t T -> qdist p t < qdist p c) ->
+  let xl := qminl v0 (V' ++ T) in
+  let xr := qmaxl v0 (V' ++ T) in
+  c < xl \/ xr < c.
+Proof.
+  intros EV ET H xl xr.
+  destruct (Qlt_le_dec c xl) as [Hl|Hl]; [now left|]. destruct (Qlt_le_dec xr c) as [Hr|Hr]; [now right|]. exfalso.
+  assert (Hxl : In xl (V ++ T)) by (subst V; apply (qminl_spec v0 (V' ++ T))).
+  assert (Hxr : In xr (V ++ T)) by (subst V; apply (qmaxl_spec v0 (V' ++ T))).
+  assert (Hv0 : In v0 V) by (subst V; now left). assert (Ht0 : In t0 T) by (subst T; now left).
+  apply in_app_or in Hxl, Hxr. destruct Hxl as [Hxl|Hxl], Hxr as [Hxr|Hxr].
+  - pose proof (H xl t0 Hxl Ht0) as H1. pose proof (H xr t0 Hxr Ht0) as H2.
+    destruct (qdist_cases xl t0) as [[? E1]|[? E1]], (qdist_cases xl c) as [[? E2]|[? E2]],
+             (qdist_cases xr t0) as [[? E3]|[? E3]], (qdist_cases xr c) as [[? E4]|[? E4]]; lra.
+  - pose proof (H xl xr Hxl Hxr) as H1.
+    destruct (qdist_cases xl xr) as [[? E1]|[? E1]], (qdist_cases xl c) as [[? E2]|[? E2]]; lra.
+  - pose proof (H xr xl Hxr Hxl) as H1.
+    destruct (qdist_cases xr xl) as [[? E1]|[? E1]], (qdist_cases xr c) as [[? E2]|[? E2]]; lra.
+  - pose proof (H v0 xl Hv0 Hxl) as H1. pose proof (H v0 xr Hv0 Hxr) as H2.
+    destruct (qdist_cases v0 xl) as [[? E1]|[? E1]], (qdist_cases v0 xr) as [[? E3]|[? E3]],
+             (qdist_cases v0 c) as [[? E2]|[? E2]]; lra.
+Qed.
+
+(* ============================================================================================== *)
+(* 9. small facts about lists used in the assembly                                                 *)
+(* ============================================================================================== *)
+Lemma last_in_tail {T} (x : T) t d : t <> [] -> In (last (x :: t) d) t.
+Proof.
+  revert x. induction t as [|y t IH]; intros x H; [congruence|]. destruct t as [|z t'].
+  - now left.
+  - right. change (last (x :: y :: z :: t') d) with (last (y :: z :: t') d). apply IH. discriminate.
+Qed.
+
+Lemma last_In {T} (x : T) t d : In (last (x :: t) d) (x :: t).
+Proof. destruct t as [|y t]; [now left|]. right. apply last_in_tail. discriminate. Qed.
+
+Lemma memb_In c l : memb c l = true <-> In c l.
+Proof.
+  unfold memb. rewrite existsb_exists. split.
+  - intros (x & Hx & E). apply N.eqb_eq in E. now subst.
+  - intros H. exists c. split; [assumption|apply N.eqb_refl].
+Qed.
+
+Lemma Forall2_map_r {A B C} (P : A -> C -> Prop) (f : B -> C) l1 l2 :
+  Forall2 P l1 (map f l2) <-> Forall2 (fun a b => P a (f b)) l1 l2.
+Proof.
+  revert l1. induction l2 as [|b t IH]; intros l1; cbn [map].
+  - split; intros H; inversion H; constructor.
+  - split; intros H; inversion H; subst; constructor; try assumption; now apply IH.
+Qed.
+
+Lemma ordered_pairs_total (l : list N) a b : In a l -> In b l -> a <> b ->
+  In (a, b) (ordered_pairs l) \/ In (b, a) (ordered_pairs l).
+Proof.
+  intros Ha Hb Hne. apply In_nth_error in Ha, Hb. destruct Ha as (i & Hi), Hb as (j & Hj).
+  destruct (lt_eq_lt_dec i j) as [[Hlt|Heq]|Hgt].
+  - left. eapply ordered_pairs_nth; eassumption.
+  - subst j. rewrite Hi in Hj. congruence.
+  - right. eapply ordered_pairs_nth; eassumption.
+Qed.
+
+Lemma sorted_before_segment (v1 pre rk post : list N) : NoDup v1 -> v1 = pre ++ rk ++ post ->
+  StronglySorted (fun a b => before v1 a b = true) rk.
+Proof.
+  intros Hnd E. apply SS_nth. intros i j a b Hij Hi Hj. unfold before. apply Nat.ltb_lt.
+  assert (Ha : nth_error v1 (length pre + i) = Some a).
+  { rewrite E, nth_error_app2 by lia. replace (length pre + i - length pre)%nat with i by lia.
+    rewrite nth_error_app1; [assumption|]. apply nth_error_Some. congruence. }
+  assert (Hb : nth_error v1 (length pre + j) = Some b).
+  { rewrite E, nth_error_app2 by lia. replace (length pre + j - length pre)%nat with j by lia.
+    rewrite nth_error_app1; [assumption|]. apply nth_error_Some. congruence. }
+  rewrite (aidx_nth _ _ _ Hnd Ha), (aidx_nth _ _ _ Hnd Hb). lia.
+Qed.
+
+(* ============================================================================================== *)
+(* 10. the constraints of _one_euclidean_solve_lp (multiplied by 2)                                *)
+(* ============================================================================================== *)
+(*   for a left of b on the axis:   x_a + 1 <= x_b
+     and for every voter i:         p_i + 1 <= (x_a + x_b)/2   if the voter ranks a before b
+                                    p_i >= (x_a + x_b)/2 + 1   otherwise                            *)
+Definition lp_sat (prefs : list (list N)) (axis : list N) (vs : list Q) (xs : list (N * Q)) : Prop :=
+  Forall (fun ab => posf xs (fst ab) + 1 <= posf xs (snd ab)) (ordered_pairs axis) /\
+  Forall2 (fun p r => Forall (fun ab => if before r (fst ab) (snd ab)
+                                        then 2 * p + 2 <= posf xs (fst ab) + posf xs (snd ab)
+                                        else posf xs (fst ab) + posf xs (snd ab) + 2 <= 2 * p)
+                             (ordered_pairs axis)) vs prefs.
+
+Section Assembly.
+Variables alts : list N.
+Variable orders : list (list N).
+Variables v1 vn : list N.
+Variable seqt : list (list N).          (* sc_order = v1 :: seqt *)
+Variable g0 g : gamma.
+Variable axis : list N.
+Variable vs : list Q.
+Variable xs : list (N * Q).
+
+Let plus := filter (fun c => negb (is_grey (g c))) alts.
+Let col := fun c => memb c plus.
+Let alt := posf xs.
+
+Hypothesis Hnd : NoDup alts.
+Hypothesis Hndo : NoDup orders.
+Hypothesis Hrk : Forall (fun r => Permutation alts r) orders.
+Hypothesis Hperm : Permutation orders (v1 :: seqt).
+Hypothesis Hsc : single_crossing_seq alts (v1 :: seqt).
+Hypothesis Hvn : vn = last (v1 :: seqt) v1.
+Hypothesis Hcl : colour_loop v1 vn alts g0 = Some g.
+Hypothesis Haxis : Permutation plus axis.
+Hypothesis Hlp : lp_sat (map (filter col) orders) axis vs xs.
+
+Lemma col_spec c : In c alts -> (col c = true <-> g c <> Grey).
+Proof.
+  intros Hc. unfold col. rewrite memb_In. unfold plus. rewrite filter_In. split.
+  - intros (_ & H) E. rewrite E in H. discriminate.
+  - intros H. split; [assumption|]. destruct (g c); try reflexivity. congruence.
+Qed.
+
+Lemma col_In c : col c = true -> In c alts.
+Proof. unfold col. rewrite memb_In. unfold plus. rewrite filter_In. tauto. Qed.
+
+Lemma order_in_seq r : In r orders -> In r (v1 :: seqt).
+Proof. intros H. eapply Permutation_in; eassumption. Qed.
+
+Lemma seq_perm r : In r (v1 :: seqt) -> Permutation alts r.
+Proof.
+  intros H. rewrite Forall_forall in Hrk. apply Hrk. eapply Permutation_in; [apply Permutation_sym; exact Hperm|assumption].
+Qed.
+
+Lemma v1_perm : Permutation alts v1.
+Proof. apply seq_perm. now left. Qed.
+Lemma vn_perm : Permutation alts vn.
+Proof. apply seq_perm. rewrite Hvn. apply last_In. Qed.
+
+Lemma In_perm r c : Permutation alts r -> (In c alts <-> In c r).
+Proof. intros HP. split; apply Permutation_in; [assumption|now apply Permutation_sym]. Qed.
+
+(* a grey alternative is ranked, relative to every other alternative, as by v_1 — by every voter *)
+Lemma grey_agree r c b : In r orders -> In c alts -> In b alts -> c <> b -> col c = false ->
+  before r c b = before v1 c b /\ before r b c = before v1 b c.
+Proof.
+  intros Hr Hc Hb Hne Hg.
+  assert (Hgrey : g c = Grey).
+  { destruct (g c) eqn:E; try reflexivity; exfalso;
+      assert (col c = true) by (apply col_spec; [assumption|congruence]); congruence. }
+  destruct (grey_not_swapped _ _ _ _ _ _ _ Hcl Hc Hb Hne Hgrey) as (S1 & S2).
+  pose proof v1_perm as P1. pose proof vn_perm as Pn.
+  pose proof (seq_perm r (order_in_seq r Hr)) as Pr.
+  assert (Hc1 : In c v1) by (now apply (In_perm v1 c P1)). assert (Hb1 : In b v1) by (now apply (In_perm v1 b P1)).
+  assert (Hcn : In c vn) by (now apply (In_perm vn c Pn)). assert (Hbn : In b vn) by (now apply (In_perm vn b Pn)).
+  assert (Hcr : In c r) by (now apply (In_perm r c Pr)). assert (Hbr : In b r) by (now apply (In_perm r b Pr)).
+  unfold swapped in S1, S2.
+  assert (E1 : before v1 c b = before vn c b).
+  { destruct (before v1 c b) eqn:A.
+    - cbn [andb] in S1. symmetry. apply (before_total vn b c Hbn Hcn (not_eq_sym Hne) S1).
+    - pose proof (before_total v1 c b Hc1 Hb1 Hne A) as A'. rewrite A' in S2. cbn [andb] in S2.
+      destruct (before vn c b) eqn:B; [|reflexivity]. congruence. }
+  assert (E2 : before v1 b c = before vn b c).
+  { destruct (before v1 b c) eqn:A.
+    - cbn [andb] in S2. symmetry. apply (before_total vn c b Hcn Hbn Hne S2).
+    - pose proof (before_total v1 b c Hb1 Hc1 (not_eq_sym Hne) A) as A'. rewrite A' in S1. cbn [andb] in S1.
+      destruct (before vn b c) eqn:B; [|reflexivity]. congruence. }
+  pose proof (sc_ends_agree alts (v1 :: seqt) v1 c b Hsc Hc Hb Hne) as G1.
+  pose proof (sc_ends_agree alts (v1 :: seqt) v1 b c Hsc Hb Hc (not_eq_sym Hne)) as G2.
+  cbn [hd] in G1, G2. rewrite <- Hvn in G1, G2.
+  rewrite <- !before_prefers in G1, G2 by assumption. split.
+  - rewrite (before_prefers r c b Hcr). apply (G1 E1). now apply order_in_seq.
+  - rewrite (before_prefers r b c Hbr). apply (G2 E2). now apply order_in_seq.
+Qed.
+
+Lemma col_axis c : col c = true -> In c axis.
+Proof. unfold col. rewrite memb_In. intros H. eapply Permutation_in; eassumption. Qed.
+
+Lemma voters_constraints p r : In (p, r) (combine vs orders) ->
+  Forall (fun ab => if before (filter col r) (fst ab) (snd ab)
+                    then 2 * p + 2 <= alt (fst ab) + alt (snd ab)
+                    else alt (fst ab) + alt (snd ab) + 2 <= 2 * p) (ordered_pairs axis).
+Proof.
+  intros Hin. destruct Hlp as (_ & H2). apply Forall2_map_r in H2.
+  exact (Forall2_combine _ _ _ _ _ H2 Hin).
+Qed.
+
+(* the LP realises every vote on the coloured alternatives *)
+Lemma lp_closer p r a b : In (p, r) (combine vs orders) -> col a = true -> col b = true ->
+  before r a b = true -> qdist p (alt a) < qdist p (alt b).
+Proof.
+  intros Hin Ha Hb Hbef. pose proof (voters_constraints p r Hin) as Hv. destruct Hlp as (Hax & _).
+  rewrite Forall_forall in Hv, Hax.
+  assert (Hne : a <> b) by (intros ->; rewrite before_irrefl in Hbef; discriminate).
+  destruct (ordered_pairs_total axis a b (col_axis a Ha) (col_axis b Hb) Hne) as [Hp|Hp].
+  - specialize (Hv _ Hp). specialize (Hax _ Hp). cbn [fst snd] in Hv, Hax.
+    rewrite (before_filter col r a b Ha Hb), Hbef in Hv.
+    unfold alt in *. apply closer_left_iff; lra.
+  - specialize (Hv _ Hp). specialize (Hax _ Hp). cbn [fst snd] in Hv, Hax.
+    rewrite (before_filter col r b a Hb Ha), (before_asym _ _ _ Hbef) in Hv.
+    unfold alt in *. apply closer_right_iff; lra.
+Qed.
+
+Lemma alt_apart a b : col a = true -> col b = true -> a <> b -> 1 <= Qabs (alt a - alt b).
+Proof.
+  intros Ha Hb Hne. destruct Hlp as (Hax & _). rewrite Forall_forall in Hax.
+  destruct (ordered_pairs_total axis a b (col_axis a Ha) (col_axis b Hb) Hne) as [Hp|Hp];
+    specialize (Hax _ Hp); cbn [fst snd] in Hax; unfold alt.
+  - rewrite Qabs_neg; lra.
+  - rewrite Qabs_pos; lra.
+Qed.
+
+Hypothesis Hlen2 : seqt <> [].
+
+Lemma v1_neq_vn : v1 <> vn.
+Proof.
+  assert (Hnds : NoDup (v1 :: seqt)) by (eapply Permutation_NoDup; eassumption).
+  apply NoDup_cons_iff in Hnds. destruct Hnds as (Hnin & _). intros E. apply Hnin.
+  assert (H : In (last (v1 :: seqt) v1) seqt) by (now apply last_in_tail). rewrite <- Hvn, <- E in H. exact H.
+Qed.
+
+Lemma two_coloured : exists a b, col a = true /\ col b = true /\ a <> b.
+Proof.
+  pose proof v1_perm as P1. pose proof vn_perm as Pn.
+  destruct (existsb (fun a => existsb (fun b => negb (Bool.eqb (before v1 a b) (before vn a b))) alts) alts) eqn:E.
+  - apply existsb_exists in E. destruct E as (a & Ha & E). apply existsb_exists in E. destruct E as (b & Hb & E).
+    apply negb_true_iff, eqb_false_iff in E.
+    assert (Hne : a <> b) by (intros ->; rewrite !before_irrefl in E; congruence).
+    destruct (colour_fold_inv _ _ _ _ _ Hcl) as (_ & Hs).
+    assert (Ha1 : In a v1) by (now apply (In_perm v1 a P1)). assert (Hb1 : In b v1) by (now apply (In_perm v1 b P1)).
+    assert (Han : In a vn) by (now apply (In_perm vn a Pn)). assert (Hbn : In b vn) by (now apply (In_perm vn b Pn)).
+    destruct (before v1 a b) eqn:A.
+    + assert (B : before vn a b = false) by (destruct (before vn a b); congruence).
+      pose proof (before_total vn a b Han Hbn Hne B) as B'.
+      destruct (Hs (a, b) (in_perm2 _ _ _ Ha Hb Hne)) as (Ga & Gb); [unfold swapped; cbn [fst snd]; now rewrite A, B'|].
+      exists a, b. cbn [fst snd] in *. repeat split; [now apply col_spec|now apply col_spec|assumption].
+    + assert (B : before vn a b = true) by (destruct (before vn a b); congruence).
+      pose proof (before_total v1 a b Ha1 Hb1 Hne A) as A'.
+      destruct (Hs (b, a) (in_perm2 _ _ _ Hb Ha (not_eq_sym Hne))) as (Gb & Ga); [unfold swapped; cbn [fst snd]; now rewrite A', B|].
+      exists a, b. cbn [fst snd] in *. repeat split; [now apply col_spec|now apply col_spec|assumption].
+  - exfalso. apply v1_neq_vn. apply before_ext; [eapply Permutation_NoDup; [exact P1|exact Hnd]| |].
+    + eapply Permutation_trans; [apply Permutation_sym; exact P1|exact Pn].
+    + intros a b Ha Hb. apply (In_perm v1 a P1) in Ha. apply (In_perm v1 b P1) in Hb.
+      destruct (Bool.eqb (before v1 a b) (before vn a b)) eqn:Eab; [now apply eqb_prop|]. exfalso.
+      assert (Hex : existsb (fun a => existsb (fun b => negb (Bool.eqb (before v1 a b) (before vn a b))) alts) alts = true).
+      { apply existsb_exists. exists a. split; [assumption|]. apply existsb_exists. exists b. split; [assumption|].
+        now rewrite Eab. }
+      congruence.
+Qed.
+
+Let tmp2 := vs ++ map alt plus.
+Let delta := max_abs_diff tmp2.
+
+Lemma delta_pos : 0 < delta.
+Proof.
+  destruct two_coloured as (a & b & Ha & Hb & Hne). pose proof (alt_apart a b Ha Hb Hne) as H1.
+  assert (H2 : Qabs (alt a - alt b) <= delta).
+  { apply max_abs_diff_bound; unfold tmp2; apply in_or_app; right; apply in_map; now apply memb_In. }
+  lra.
+Qed.
+
+Lemma dist_le_delta p c : In p vs -> col c = true -> qdist p (alt c) <= delta.
+Proof.
+  intros Hp Hc. unfold qdist. apply max_abs_diff_bound; unfold tmp2; apply in_or_app; [now left|].
+  right. apply in_map. now apply memb_In.
+Qed.
+End Assembly.
